@@ -567,3 +567,14 @@ package dag
 //@   loop 1 invariant len(encryptionKeys) == $i && len(recipients) == $i
 //@   loop 2 invariant len(cipherTexts) == $i
 //@   ensures [one-ciphertext-per-participant] isNilIface(result.1) ==> len(result.0) == len(pal)
+
+// "Listed" means: the DID EQUALS an entry of the decrypted list (C15: "whose verified node DID is on that decrypted list").
+// ASSUMED: did.DID.Equals is a function of its two arguments.
+//@ func (did.DID).Equals
+//@   trusted
+//@   pure
+//@ func (PAL).Contains
+//@   prop C15
+//@   pure
+//@   loop 1 invariant forall k int :: 0 <= k && k < $i ==> !id.Equals(pal[k])
+//@   ensures [listed-means-equal-to-an-entry] result <==> (exists k int :: 0 <= k && k < len(pal) && id.Equals(pal[k]))
